@@ -386,10 +386,17 @@ fn gen_segs(rng: &mut Rng, gg: &GlyphGen, target: usize, long_runs: bool) -> Vec
             }
             13 => {
                 let c1 = [gg.val(rng), gg.val(rng), gg.val(rng), gg.val(rng), gg.val(rng), gg.val(rng)];
-                let (dx4, dy4, dx5, dy5) = (gg.val(rng), gg.val(rng), gg.val(rng), gg.val(rng));
-                let dx = sum(&[&c1[0], &c1[2], &c1[4], &dx4, &dx5]);
+                let (dx4, dy4, mut dx5, dy5) = (gg.val(rng), gg.val(rng), gg.val(rng), gg.val(rng));
+                let mut dx = sum(&[&c1[0], &c1[2], &c1[4], &dx4, &dx5]);
                 let dy = sum(&[&c1[1], &c1[3], &c1[5], &dy4, &dy5]);
                 let exact = c1.iter().chain([&dx4, &dy4, &dx5, &dy5]).all(|x| x.is_integer());
+                if exact && rng.chance(1, 4) {
+                    // the tie |dx| == |dy|: TN 5177 takes the last operand as dx only when
+                    // abs(dx) > abs(dy), so a tie is the dy form
+                    let target = if rng.bool() { dy.d } else { -dy.d };
+                    dx5 = Val { d: dx5.d + target - dx.d, deltas: Vec::new() };
+                    dx = sum(&[&c1[0], &c1[2], &c1[4], &dx4, &dx5]);
+                }
                 let d6 = gg.val(rng);
                 let (dx6, dy6) = match abs_gt(&dx, &dy, exact, &gg.tuples) {
                     Some(true) => (d6, dy.neg()),
@@ -728,6 +735,9 @@ struct Enc<'r> {
     max_args: usize,
     n_stems: usize,
     implicit_vstem: bool,
+    /// the pen is at integer coordinates throughout the glyph (integer values only, and not the
+    /// component of a seac with a fractional offset)
+    int_pen: bool,
     fail: Option<String>,
 }
 
@@ -769,6 +779,26 @@ impl<'r> Enc<'r> {
             }
         } else {
             self.fail = Some("number out of range".to_string());
+        }
+    }
+
+    /// Operands that are integers by their nature (subroutine numbers, the count of `blend`, the
+    /// `vsindex` operand, the character codes of seac): integer encodings only. Interpreters that
+    /// keep the operand type (e.g. FreeType's `cf2_stack_popInt`) refuse a 16.16 number there, so a
+    /// 16.16 form is outside the unambiguous core.
+    fn num_int(&mut self, v: i64) {
+        let encs: Vec<cffw::NumEnc> = cffw::int_encodings(v).into_iter().filter(|e| *e != cffw::NumEnc::Five).collect();
+        if encs.is_empty() {
+            self.fail = Some("integer operand out of range".to_string());
+            return;
+        }
+        let enc = if self.rng.chance(3, 5) { encs[0] } else { *self.rng.pick(&encs) };
+        match Tok::int(v, enc) {
+            Some(t) => {
+                self.toks.push(t);
+                self.class(&format!("num:{}", enc.name()));
+            }
+            None => self.fail = Some("int encoding".to_string()),
         }
     }
 
@@ -825,7 +855,7 @@ impl<'r> Enc<'r> {
                     self.num(v.deltas.get(r).copied().unwrap_or(0));
                 }
             }
-            self.num(n as i64 * ONE);
+            self.num_int(n as i64);
             self.toks.push(Tok::blend(n, k));
             self.class("blend");
             if n > 1 {
@@ -1081,7 +1111,12 @@ impl<'r> Enc<'r> {
                     let dx = sum(&[&c0[0], &c0[2], &c0[4], &c1[0], &c1[2]]);
                     let dy = sum(&[&c0[1], &c0[3], &c0[5], &c1[1], &c1[3]]);
                     let exact = c0.iter().chain(c1[..4].iter()).all(|v| v.is_integer());
+                    // A tie |dx| == |dy| is the dy form by TN 5177, but only decidable when the
+                    // interpreter's pen arithmetic is exact: an interpreter that tracks absolute f32
+                    // positions loses the tie to rounding once the pen is at a fractional position.
+                    let fragile_tie = exact && dx.d.abs() == dy.d.abs() && !self.int_pen;
                     match abs_gt(&dx, &dy, exact, &self.tuples) {
+                        _ if fragile_tie => {}
                         Some(true) if c1[5].same(&dy.neg()) => {
                             for _ in 0..4 {
                                 cand.push(("flex1:dx", 2));
@@ -1252,6 +1287,11 @@ impl<'r> Enc<'r> {
                             vals.extend_from_slice(&c0);
                             vals.extend_from_slice(&c1[..4]);
                             vals.push(if form == "flex1:dx" { c1[4].clone() } else { c1[5].clone() });
+                            let dx = sum(&[&c0[0], &c0[2], &c0[4], &c1[0], &c1[2]]);
+                            let dy = sum(&[&c0[1], &c0[3], &c0[5], &c1[1], &c1[3]]);
+                            if c0.iter().chain(c1[..4].iter()).all(|v| v.is_integer()) && dx.d.abs() == dy.d.abs() && dx.d != 0 {
+                                self.class("op:flex1:tie");
+                            }
                             op::FLEX1
                         }
                     };
@@ -1271,13 +1311,25 @@ impl<'r> Enc<'r> {
 
     fn glyph(&mut self, g: &Glyph) {
         if self.cff2 && g.explicit_vsindex {
-            self.num(g.vsindex as i64 * ONE);
+            self.num_int(g.vsindex as i64);
             self.toks.push(Tok::op(op::VSINDEX));
             self.class("op:vsindex");
         }
         if let Some(s) = &g.seac {
-            let vals = vec![s.adx.clone(), s.ady.clone(), Val::int(s.bchar as i64), Val::int(s.achar as i64)];
-            self.clear_op("endchar-seac", &vals, Tok::op(op::ENDCHAR), true);
+            // [w] adx ady bchar achar endchar (TN 5177 appendix C)
+            self.first_clear = false;
+            if let Some(w) = self.width.take() {
+                self.num(w * ONE);
+                self.class("width-prefix:endchar-seac");
+            } else {
+                self.class("seac:no-width");
+            }
+            self.num(s.adx.d);
+            self.num(s.ady.d);
+            self.num_int(s.bchar as i64);
+            self.num_int(s.achar as i64);
+            self.toks.push(Tok::op(op::ENDCHAR));
+            self.class("op:endchar-seac");
             self.class("seac");
             return;
         }
@@ -1309,7 +1361,7 @@ struct Encoded {
     max_args: usize,
 }
 
-fn encode_glyph(rng: &mut Rng, g: &Glyph, cff2: bool, k: Option<usize>, tuples: &[Vec<f64>]) -> Result<Encoded, String> {
+fn encode_glyph(rng: &mut Rng, g: &Glyph, cff2: bool, k: Option<usize>, tuples: &[Vec<f64>], int_origin: bool) -> Result<Encoded, String> {
     let mut e = Enc {
         rng,
         toks: Vec::new(),
@@ -1325,6 +1377,7 @@ fn encode_glyph(rng: &mut Rng, g: &Glyph, cff2: bool, k: Option<usize>, tuples: 
         max_args: 0,
         n_stems: 0,
         implicit_vstem: false,
+        int_pen: int_origin && g.all_integer(),
         fail: None,
     };
     e.glyph(g);
@@ -1772,9 +1825,10 @@ fn build_font(cx: &mut Ctx, rng: &mut Rng, dir: Option<&Directed>) -> Result<Bui
     }
 
     // encode
+    let seac_fractional = slots.iter().any(|s| s.glyph.as_ref().and_then(|g| g.seac.as_ref()).map_or(false, |sc| !sc.adx.is_integer() || !sc.ady.is_integer()));
     for s in slots.iter_mut() {
         if let Some(g) = &s.glyph {
-            let e = encode_glyph(rng, g, cff2, s.k, &s.tuples)?;
+            let e = encode_glyph(rng, g, cff2, s.k, &s.tuples, !seac_fractional)?;
             s.enc = Some(e);
         }
     }
@@ -2179,29 +2233,9 @@ impl C18 {
             Some(g) => g,
             None => return format!("{}:{}", kind, tag),
         };
-        if let Some(sc) = &g.seac {
-            let comp = |p: usize| b.slots[p].glyph.as_ref();
-            let has_w = |p: usize| comp(p).map_or(false, |g| g.width.is_some());
-            // width taken by a moveto / endchar of the component (a stem operator tolerates an extra operand)
-            let w_on_move = |p: usize| {
-                b.slots[p].enc.as_ref().map_or(false, |e| {
-                    e.classes.iter().any(|c| matches!(c.as_str(), "width-prefix:rmoveto" | "width-prefix:hmoveto" | "width-prefix:vmoveto" | "width-prefix:endchar"))
-                })
-            };
-            let stems = |p: usize| comp(p).and_then(|g| g.hints.as_ref()).map_or(0, |h| h.hstems.len() + h.vstems.len());
-            let masks = |p: usize| comp(p).and_then(|g| g.hints.as_ref()).map_or(false, |h| h.masks);
-            if b.iso_adobe && (sc.bchar > 228 || sc.achar > 228) && kind.contains("InvalidSeacCode") {
-                return "seac:isoadobe-code>228".to_string();
-            }
-            if g.width.is_none() {
-                return "seac:composite-without-width".to_string();
-            }
-            if w_on_move(sc.base) || (w_on_move(sc.accent) && sc.accent != sc.base) || (has_w(sc.base) && sc.accent == sc.base) {
-                return "seac:component-width".to_string();
-            }
-            if stems(sc.base) > 0 && masks(sc.accent) && (stems(sc.base) + stems(sc.accent) + 7) / 8 != (stems(sc.accent) + 7) / 8 {
-                return "seac:component-hintmask".to_string();
-            }
+        if g.seac.is_some() {
+            // (the component that diverged is named by `tag`: the operator form of the first
+            // differing command, looked up in the component's own encoding)
             return format!("seac:{}:{}", kind, tag);
         }
         // Triage by ablation: the same flat (call free) program alone in a single Font DICT font. When
@@ -2551,6 +2585,69 @@ impl C18 {
                 }
                 if !g.all_integer() {
                     cx.class("values:non-integer");
+                }
+                if let Some(sc) = &g.seac {
+                    cx.class(if b.iso_adobe { "seac:isoadobe-charset" } else { "seac:custom-charset" });
+                    if sc.bchar > 228 || sc.achar > 228 {
+                        cx.class("seac:code>228");
+                    }
+                    if sc.base == sc.accent {
+                        cx.class("seac:accent-is-base");
+                    }
+                    let comp = |p: usize| b.slots[p].glyph.as_ref();
+                    let stems = |p: usize| comp(p).and_then(|g| g.hints.as_ref()).map_or(0, |h| h.hstems.len() + h.vstems.len());
+                    let masks = |p: usize| comp(p).and_then(|g| g.hints.as_ref()).map_or(false, |h| h.masks);
+                    if comp(sc.base).map_or(false, |g| g.width.is_some()) {
+                        cx.class("seac:base-with-width");
+                    }
+                    if comp(sc.accent).map_or(false, |g| g.width.is_some()) {
+                        cx.class("seac:accent-with-width");
+                    }
+                    if stems(sc.base) > 0 && masks(sc.accent) && (stems(sc.base) + stems(sc.accent) + 7) / 8 != (stems(sc.accent) + 7) / 8 {
+                        cx.class("seac:accent-hintmask-after-base-stems");
+                    }
+                    if [sc.base, sc.accent].iter().any(|&p| b.slots[p].stats.local_calls + b.slots[p].stats.global_calls > 0) {
+                        cx.class("seac:component-with-subrs");
+                    }
+                }
+                if b.flavour == Flavour::Cff2 {
+                    if g.contours.is_empty() {
+                        cx.class("cff2:empty-glyph");
+                    }
+                    if s.fd > 0 {
+                        cx.class("cff2:glyph-in-fd>0");
+                    }
+                    let blended = s.enc.as_ref().map_or(false, |e| e.classes.iter().any(|c| c == "blend"));
+                    let has_deltas = g.contours.iter().any(|c| c.start.iter().any(|v| v.has_deltas()) || c.segs.iter().any(|sg| sg.vals().iter().any(|v| v.has_deltas())));
+                    if blended && b.vstore.is_some() {
+                        if !g.explicit_vsindex {
+                            cx.class("blend:vsindex-from-private-dict");
+                            if b.fd_vsindex[s.fd] != 0 {
+                                cx.class("blend:vsindex-from-private-dict-nonzero");
+                            }
+                            if s.fd > 0 && b.fd_vsindex[s.fd] != b.fd_vsindex[0] {
+                                cx.class("blend:vsindex-of-fd>0-differs-from-fd0");
+                            }
+                        } else if g.vsindex != b.fd_vsindex[s.fd] {
+                            cx.class("blend:vsindex-operator-overrides-private-dict");
+                        }
+                    }
+                    if blended && has_deltas {
+                        for sc in &s.tuples {
+                            if sc.iter().any(|&x| x > 0.0 && x < 1.0) {
+                                cx.class("blend:scalar-fractional");
+                            }
+                            if sc.iter().any(|&x| x == 0.0) {
+                                cx.class("blend:scalar-zero");
+                            }
+                            if sc.iter().any(|&x| x == 1.0) {
+                                cx.class("blend:scalar-one");
+                            }
+                            if sc.len() >= 2 && sc.iter().any(|&x| x != sc[0]) {
+                                cx.class("blend:regions-with-distinct-scalars");
+                            }
+                        }
+                    }
                 }
             }
         }
